@@ -59,7 +59,17 @@ def _doc(draw: Any, tok: Tok, param_names: list[str], with_result: bool, attr_na
     examples = []
     if examples_ok and draw(st.integers(0, 2)) == 0:
         for _ in range(draw(st.integers(1, 2))):
-            examples.append([">>> " + tok.line("e")] + (["... " + tok.line("e")] if draw(st.booleans()) else []))
+            ex = [">>> " + tok.line("e")] + (["... " + tok.line("e")] if draw(st.booleans()) else [])
+            # further statements of the same block, each possibly preceded by the expected output of the previous one
+            for _ in range(draw(st.sampled_from([0, 0, 1, 2]))):
+                if draw(st.booleans()):
+                    ex.append("out" + tok.line("o"))
+                ex.append(">>> " + tok.line("e"))
+                if draw(st.integers(0, 2)) == 0:
+                    ex.append("... " + tok.line("e"))
+            if draw(st.integers(0, 2)) == 0:
+                ex.append("out" + tok.line("o"))
+            examples.append(ex)
     return {"desc": desc, "params": params, "result": result, "attrs": attrs, "examples": examples}
 
 
@@ -151,6 +161,8 @@ def expected_comment(d: dict, param_order: list[str], result_name: str | None, n
                 out.append("")
             out += ["@example", "pipeline example {"]
             for ln in ex:
+                if not (ln.startswith(">>>") or ln.startswith("...")):
+                    continue  # expected output is not code
                 out.append("    // " + ln[4:].strip() if ln[3:4] != " " else "    //" + ln[3:])
             out.append("}")
     return out
